@@ -121,11 +121,13 @@ def register(GROUPS, c2g, incs, REPO, HERE, STRUCTS, Group):
                 return "[(4, 0, 0, %s, %s, %s, %s)]" % (ex(args[2]), ex(args[3]), ex(args[4]), ex(args[-1]))
             if name in ("__builtin_va_start", "__builtin_va_end"):
                 return None
+            if name == "sc_abort_verbose":      # enabled SC_ASSERT / SC_CHECK_ABORT: the process ends here
+                return "[(9, 0, 0, 0, 0, 0, 0)]"
             raise c2g.Unsupported("call statement to %s in %s" % (name, self.fname))
 
         def has_event_call(self, s):
             if isinstance(s, dict):
-                if s.get("kind") == "CallExpr" and callee_name(s) in ("sc_package_lock", "sc_package_unlock", "log_handler", "sc_log", "sc_logf", "vsnprintf"):
+                if s.get("kind") == "CallExpr" and callee_name(s) in ("sc_package_lock", "sc_package_unlock", "log_handler", "sc_log", "sc_logf", "vsnprintf", "sc_abort_verbose"):
                     return True
                 return any(self.has_event_call(c) for c in s.get("inner", []))
             return False
@@ -133,7 +135,7 @@ def register(GROUPS, c2g, incs, REPO, HERE, STRUCTS, Group):
         def assigned(self, s, acc, declared):
             super().assigned(s, acc, declared)
             if self.has_event_call(s):
-                acc.add("events_")
+                acc.add("evs")
                 if any(True for _ in self.find_calls(s, "vsnprintf")):
                     acc.add("buffer")
             acc.discard("p")
@@ -166,10 +168,10 @@ def register(GROUPS, c2g, incs, REPO, HERE, STRUCTS, Group):
                 ev = self.event_of_call(sp, env)
                 if ev is None:
                     return self.stmts(rest, env, K)
-                v = self.fresh("events_")
+                v = self.fresh("evs")
                 env2 = dict(env)
-                env2["events_"] = v
-                return "let %s := %s ++ %s in\n%s" % (v, env["events_"], ev, self.stmts(rest, env2, K))
+                env2["evs"] = v
+                return "let %s := %s ++ %s in\n%s" % (v, env["evs"], ev, self.stmts(rest, env2, K))
             if k == "BinaryOperator" and s.get("opcode") == "=":
                 lhs = strip(s["inner"][0])
                 if lhs.get("kind") == "DeclRefExpr" and "sc_package_t *" in c2g.tystr(lhs):
@@ -192,7 +194,7 @@ def register(GROUPS, c2g, incs, REPO, HERE, STRUCTS, Group):
         T = EvT(sc_log_inline)
         T.fname = fn["name"]
         T.gname = gname
-        env = {"events_": "[]"}
+        env = {"evs": "[]"}
         for p in fn.get("inner", []):
             if p.get("kind") == "ParmVarDecl" and p.get("name"):
                 pass                      # parameters are added on first use (white list ORDER)
@@ -200,7 +202,10 @@ def register(GROUPS, c2g, incs, REPO, HERE, STRUCTS, Group):
         if c2g.body_uses_loops(body):
             raise c2g.Unsupported("loop in %s" % fn["name"])
         if result == "events":
-            fin = lambda e2: e2["events_"]
+            fin = lambda e2: e2["evs"]
+            ret = lambda e, e2: fin(e2)
+        elif isinstance(result, list) and "evs" in result:
+            fin = lambda e2: "(%s)" % ", ".join(e2["evs"] if g == "evs" else T.lookup(e2, g) for g in result)
             ret = lambda e, e2: fin(e2)
         elif result == "value":
             fin = lambda e2: (_ for _ in ()).throw(c2g.Unsupported("no return value in %s" % fn["name"]))
@@ -214,7 +219,8 @@ def register(GROUPS, c2g, incs, REPO, HERE, STRUCTS, Group):
         text = T.stmts(list(body.get("inner", [])), env, K)
         params = sorted(T.params, key=ORDER.index)
         plist = " ".join("(%s : %s)" % (n, FUNTYPES.get(n, "Z")) for n in params)
-        rtype = "list (%s)" % EVT if result == "events" else ("Z" if result == "value" else " * ".join(["Z"] * len(result)))
+        rtype = "list (%s)" % EVT if result == "events" else ("Z" if result == "value" else
+                                                               " * ".join(("list (%s)" % EVT) if g == "evs" else "Z" for g in result))
         out = "Definition %s %s : %s :=\n%s.\n" % (gname, plist, rtype, text)
         return out, dict(name=gname, cname=fn["name"], params=params, fuel=False), params
 
@@ -228,7 +234,12 @@ def register(GROUPS, c2g, incs, REPO, HERE, STRUCTS, Group):
         g.add(t, i)
         objs = c2g.clang_ast(f, "sc_set_log_defaults", incs(tmp))
         t, i, _ = translate(c2g.find_function(objs, "sc_set_log_defaults"), "sc_set_log_defaults",
-                            ["sc_default_log_handler", "sc_default_log_threshold", "sc_log_stream"])
+                            ["sc_default_log_handler", "sc_default_log_threshold", "sc_log_stream", "evs"])
+        g.add(t, i)
+        # the same function in the debug configuration: SC_LP_THRESHOLD differs and the SC_ASSERT is live
+        objs = c2g.clang_ast(f, "sc_set_log_defaults", incs(tmp), ("SC_ENABLE_DEBUG",))
+        t, i, _ = translate(c2g.find_function(objs, "sc_set_log_defaults"), "sc_set_log_defaults_dbg",
+                            ["sc_default_log_handler", "sc_default_log_threshold", "sc_log_stream", "evs"])
         g.add(t, i)
         # the log macros of sc.h, expanded by clang inside one-line wrapper functions, in the
         # release and in the debug configuration (SC_LP_THRESHOLD differs)
@@ -246,6 +257,9 @@ def register(GROUPS, c2g, incs, REPO, HERE, STRUCTS, Group):
                      "c19_const_lp_silent", "c19_const_lc_global", "c19_const_lc_normal", "c19_const_lp_threshold"]:
             t, i, _ = translate(c2g.find_function(objs, name), name, "value")
             g.add(t, i)
+        objs = c2g.clang_ast(w, "c19_const_", incs(tmp), ("SC_ENABLE_DEBUG",))
+        t, i, _ = translate(c2g.find_function(objs, "c19_const_lp_threshold"), "c19_const_lp_threshold_dbg", "value")
+        g.add(t, i)
         return g, [f, os.path.join(REPO, "src", "sc.h"), w]
 
     GROUPS["LogC19"] = gen_log
